@@ -1138,6 +1138,22 @@ func (f *fnState) zeroRange(r string, et types.Type) {
 }
 
 func (f *fnState) ret(i *ssa.Return) {
+	if f.inlining > 0 {
+		var res SV
+		switch len(i.Results) {
+		case 0:
+			res = SV{}
+		case 1:
+			res = f.val(i.Results[0])
+		default:
+			res = SV{Typ: i.Parent().Signature.Results()}
+			for _, r := range i.Results {
+				res.Agg = append(res.Agg, f.val(r))
+			}
+		}
+		f.inlineRet = &res
+		return
+	}
 	f.retSeen++
 	binds := map[string]SV{}
 	for k, r := range i.Results {
